@@ -355,6 +355,11 @@ def run(ctx, ck):
     if keys_:
         run_cache_rule(ctx, ck, only=keys_)
     ck.info('report_caches', sorted(keys_))
+    # the source echo "PULSE NO., VOLTAGE MAGNITUDE, PHASE (DEGREES)": the value under the label is of degree kind
+    # (rule shared with C18, the report line only)
+    ck.rule('R-KIND.degrees', 'the phase printed under PHASE (DEGREES) is in degrees')
+    from .C18 import check_source_units
+    check_source_units(ctx, ck, with_basic=False)
     # the source block: every labelled line prints that quantity of the source the block belongs to
     ck.rule('R-DEP.labelled-value', 'a line labelled VOLTAGE / CURRENT / IMPEDANCE / POWER prints that quantity of its own source')
     from ..symx import unwrap_formatted, leading_literal, fold_text
